@@ -71,7 +71,16 @@ def setup(M):
         k = 0
         prev = None
         case = M.current
-        for x in it:
+        while True:
+            try:
+                x = next(it)
+            except StopIteration:
+                break
+            except Exception as e:  # noqa: BLE001 - "the iteration is finite": it ends, it does not blow up half-way
+                M.current = case
+                M.check("range.element", False, f"C19/range-raised-{type(e).__name__}", "range() raised in the middle of the iteration",
+                        start=_d(start), end=_d(end), unit=unit, amount=amount, k=k, exc=repr(e)[:120])
+                return
             M.quiet += 1
             try:
                 try:
@@ -81,6 +90,9 @@ def setup(M):
                 bad = []
                 if exp is None or not same(x, exp):
                     bad.append("element")
+                elif unit in UNITS[:4] and k:
+                    # independent calendar model of "start shifted by k*n units" (the library's own add() is not the judge here)
+                    bad += _model_problems(start, unit, sgn * k * amount, x)
                 if prev is not None and not (sgn * pos(x) > sgn * prev):
                     if not bad and sgn * pos(x) == sgn * prev:
                         # the oracle sequence itself repeats an instant: two wall times normalised out of one gap
@@ -136,6 +148,24 @@ def setup(M):
 
 
 OTHER_ZONES = ["America/New_York", "Europe/Paris", "Asia/Kathmandu", "Australia/Lord_Howe", "Pacific/Apia", "Europe/London"]
+
+
+def _model_problems(start, unit, n, got):
+    from pvmon.props import c04
+
+    vals = [0] * 8
+    vals[c04.NAMES.index(unit)] = n
+    if not isinstance(start, dt.datetime):
+        e = c04.date_model(start, vals)
+        return ["element-model"] if e is not None and fields(got) != e else []
+    m = c04.model(start, vals)
+    if m is None:
+        return []
+    if m[0] == "naive":
+        return ["element-model"] if wall_us(got) != m[2] else []
+    if m[0] == "value":
+        return ["element-model"] if (wall_us(got) != m[2] or inst(got) != m[1]) else []
+    return []
 
 
 def _fold_pair(a, b):
